@@ -27,6 +27,16 @@ CHECKS = {
         "Trusted: Lean kernel; hand-written model of register_system/_relative_capture/adaptation tied to the code by the "
         "per-run correspondence only; add=True with matrix K is not modelled; float rounding not modelled (rtol 1e-10).",
         "5/C02"),
+    "C20": (
+        "Lean 4 proof (field algebra with exact SI constants) + per-run model/code correspondence at exact rationals",
+        "Theorems in lean/Dreye/Props/C20.lean prove that the modelled conversion is I*lambda*1e-9/(h c N_A) with the exact SI "
+        "constants, that a prefix multiplies by the stated power of ten, that flux2irr and irr2flux are exact mutual inverses "
+        "for every non-zero wavelength and prefix pair, that both are linear and act element-wise; every run compares "
+        "dreye.irr2flux/flux2irr (scalars, 1-D, N-D with axis, prefixes, pint quantities, round trips, after a call with "
+        "another prefix on the same grid) with the exact model.",
+        "Trusted: Lean kernel; pint's registry is the engine (its constants are pinned numerically to the exact SI rationals at "
+        "rtol 1e-12 by the correspondence); hand-written model tied to the code by the per-run correspondence only.",
+        "5/C20"),
 }
 
 NOT_YET = "check not built yet in this round of work (planned in DESIGN.md section 5); no claim is made"
